@@ -220,6 +220,36 @@ class _OrderedSet(set):
         return iter(self._vals)
 
 
+class _LS:
+    """value of a shape program (Xform.tla): a sequence that reports HOW it is taken apart - by iteration
+    (Python's unpacking) or by indexing (ptera's rewrite) - and whose elements are named by their path"""
+
+    def __init__(self, path, shape):
+        self.path = path
+        self.elts = [(_LS(f"{path}.{i}", sh) if isinstance(sh, list) else _Leaf(f"{path}.{i}")) for i, sh in enumerate(shape)]
+
+    def __iter__(self):
+        LOG.append(["siter", self.path])
+        return iter(list(self.elts))
+
+    def __getitem__(self, i):
+        LOG.append(["sgetitem", self.path, i])
+        return self.elts[i]
+
+    def __len__(self):
+        return len(self.elts)
+
+
+class _Leaf:
+    def __init__(self, path):
+        self.path = path
+
+
+def LS(k, shape):
+    LOG.append(["eval", k, "ls"])
+    return _LS(str(k), shape) if isinstance(shape, list) else _Leaf(str(k))
+
+
 def B(name, value):
     """twin only: a binding of `name` just happened"""
     LOG.append(["bind", name, enc(value)])
@@ -254,6 +284,10 @@ def enc(v):
         return f"obj:{v._k}"
     if isinstance(v, _Acc):
         return f"acc:{v.k}"        # identity only: the object is mutable, streams hold it by reference
+    if isinstance(v, (_LS, _Leaf)):
+        return "v:" + v.path
+    if isinstance(v, list) and v and all(isinstance(x, (_LS, _Leaf)) for x in v):
+        return "rest"                  # what a starred target received
     if isinstance(v, (tuple, list)):
         return "[" + ",".join(enc(x) for x in v) + "]"
     if isinstance(v, type):
